@@ -70,7 +70,10 @@ MulInt(x, k) == Mul(x, FromInt(k))
 
 \* x * k^n
 RECURSIVE MulPow(_, _, _)
-MulPow(x, k, n) == IF n = 0 THEN x ELSE MulPow(MulInt(x, k), k, n - 1)
+MulPow(x, k, n) ==
+  IF n = 0 THEN x
+  ELSE LET y == MulInt(x, k)
+       IN IF Len(y) >= 0 THEN MulPow(y, k, n - 1) ELSE y     \* the test forces y (TLC evaluates lazily: 26 nested thunks otherwise)
 
 \* floor(x / d) and x mod d for a small divisor (d * Base must stay below 2^31)
 DivMod(x, d) ==
